@@ -5,6 +5,7 @@ from ..probe import call
 from ..ref import bits
 
 LEVEL = "exploration"
+BRANCH_TARGETS = ['pyModeS.py_common:icao', 'pyModeS.py_common:df', 'pyModeS.decoder.allcall:icao']
 TECHNIQUE = 'runtime monitoring: forward frame builder (AA field / address-parity overlay) as oracle on real icao() calls + aircraft-table state check'
 LEVEL_TEXT = 'Exploration over DF(32) x length x letter case with structured and random addresses; exact string equality with the canonical form; one integration monitor on Decode.acs keys.'
 LEVEL_RULE = (
